@@ -5,10 +5,12 @@
    forms, strings.TrimSpace, the run-wide output map; Log/Model.v for the capture pipe.
    Tie to the code: tools/props/C11.py (dag.LoadYAML / dag.Load / model.Status / real scheduler and children).
 
-   The model describes the REPAIRED code: ff6cf28 (a name cannot contain a quote - F11c) and 0f1faec (exactly the
-   delimiting quotes are stripped - F11b).  What is still false of it, and stays a known finding:
+   The model describes the REPAIRED code: ff6cf28 (a name cannot contain a quote - F11c), 0f1faec (exactly the
+   delimiting quotes are stripped - F11b) and 92cc1cc (model.Params quotes what needs quoting - F11a).  What is still
+   false of it, and stays a known finding:
        forall its,  parse (doc_render its) = values its                      - a quoted value ending in a backslash
-       forall its,  parse (record (parse (doc_render its))) = parse (doc_render its)   - F11a (recording does not quote)
+       forall s,    parse (record (parse s)) = parse s        - a value that must be quoted and ends in a backslash;
+                                                                a positional value that looks like NAME=value
    the _partial theorems carry exactly these exclusions as decidable premises V0 / V1. *)
 From Coq Require Import List String Ascii.
 Import ListNotations.
@@ -30,8 +32,9 @@ Theorem C11_env_doc_partial : forall its i it, V0 its = true -> nth_error its i 
 Proof. exact env_doc. Qed.
 Print Assumptions C11_env_doc_partial.
 
-(* What retry and restart rely on: re-parsing the recorded string gives back the parameters, for parameters in V1
-   (value: non-empty, no white space, no quote, no leading back-tick; positional: no = after the first character). *)
+(* What retry and restart rely on: re-parsing the recorded string gives back the parameters.  V1 (decidable) excludes
+   exactly: a value that has to be written quoted (empty, white space, quote, back-tick; positional: an =) AND ends
+   with a backslash; a positional value with an = after a non-empty prefix free of white space and quotes. *)
 Theorem C11_roundtrip_partial : forall s : la, V1 (parse s) = true -> parse (record (parse s)) = parse s.
 Proof. exact roundtrip. Qed.
 Print Assumptions C11_roundtrip_partial.
@@ -40,11 +43,39 @@ Theorem C11_record_parse_partial : forall ps : list pair, V1 ps = true -> parse 
 Proof. exact record_parse. Qed.
 Print Assumptions C11_record_parse_partial.
 
-(* F11a: the round trip loses values with spaces - even for documented items in V0 *)
-Theorem C11_roundtrip_refuted : exists its, V0 its = true /\
+(* Without the second exclusion still: the stringified parameters - DAG.Params, and so $1..$n - come back unchanged
+   (a positional NAME=value only turns into the named parameter of the same text) *)
+Theorem C11_record_parse_strings_partial : forall ps : list pair, forallb bs_ok (map stringify ps) = true ->
+  map stringify (parse (record ps)) = map stringify ps.
+Proof. exact record_parse_strings. Qed.
+Print Assumptions C11_record_parse_strings_partial.
+
+(* every clause of V1 is needed *)
+Theorem C11_V1_clauses_needed :
+  (exists v, bs_ok v = true /\ is_nil (fst (qsplit v)) = false /\ parse (record [([], v)]) <> [([], v)]) /\
+  (exists v w, bs_ok v = false /\ is_nil (fst (qsplit v)) = true /\ v1_pair ([], w) = true /\
+               parse (record [([], v); ([], w)]) <> [([], v); ([], w)]) /\
+  (exists n v, name_ok n = false /\ bs_ok (stringify (n, v)) = true /\ parse (record [(n, v)]) <> [(n, v)]).
+Proof. exact V1_clauses_needed. Qed.
+Print Assumptions C11_V1_clauses_needed.
+
+(* what remains of F11a: a documented positional value that looks like NAME=value comes back as the named parameter *)
+Theorem C11_roundtrip_refuted_positional_eq : exists its, V0 its = true /\
   parse (record (parse (doc_render its))) <> parse (doc_render its).
-Proof. exact roundtrip_refuted. Qed.
-Print Assumptions C11_roundtrip_refuted.
+Proof. exact roundtrip_refuted_positional_eq. Qed.
+Print Assumptions C11_roundtrip_refuted_positional_eq.
+
+Theorem C11_roundtrip_refuted_backslash : exists ps : list pair,
+  map stringify (parse (record ps)) <> map stringify ps.
+Proof. exact roundtrip_refuted_backslash. Qed.
+Print Assumptions C11_roundtrip_refuted_backslash.
+
+(* repaired: before fix 92cc1cc (the record was the plain join of the values) these came back as a, b, c and X=a, b *)
+Example C11_roundtrip_fixed :
+  parse (record (parse (doc_render [IQuoted (L "a b"); IWord (L "c")]))) = parse (doc_render [IQuoted (L "a b"); IWord (L "c")]) /\
+  parse (record (parse (doc_render [INamedQ (L "X") (L "a b")]))) = parse (doc_render [INamedQ (L "X") (L "a b")]) /\
+  record (parse (doc_render [IQuoted (L "a b"); IWord (L "c"); IQuoted []])) = L """a b"" c """"".
+Proof. exact roundtrip_fixed. Qed.
 
 (* what remains of F11b: a backslash at the end of a quoted value swallows the closing quote *)
 Theorem C11_parse_doc_refuted_backslash : exists v w, parse (doc_render [IQuoted v; IQuoted w]) <> values [IQuoted v; IQuoted w].
@@ -96,5 +127,7 @@ Example C11_V0_nonvacuous :
       IQuoted (dq :: L "hi" ++ dq :: L " there"); IQuoted []; IWord (L "=x"); IQuoted (L "a=b");
       INamedQ (L "Z") (L "`date` \x"); IQuoted (L "say " ++ dq :: L "hi" ++ [dq]); IQuoted [dq]; IQuoted (L "=")] = true.
 Proof. exact V0_example. Qed.
-Example C11_V1_nonvacuous : V1 [([], L "a"); (L "X", L "1=2"); ([], L "=x"); ([], L "a\b`c")] = true.
+Example C11_V1_nonvacuous :
+  V1 [([], L "a"); (L "X", L "1=2"); ([], L "=x"); ([], L "a\b`c"); ([], L "a b"); (L "Y", L " p  q "); ([], []);
+      (L "Z", dq :: L "hi" ++ [dq]); ([], L "x y=z"); ([], L "tail\")] = true.
 Proof. exact V1_example. Qed.
